@@ -75,9 +75,14 @@ inductive Pc (K V : Type) where
   | rWipeV (e : Nat)                                 -- before `ReleaseBuf(e.v); e.v = nil`
   | rUnlock (e : Nat)
 
+/-- the loop condition of `Get`: `retry < 8` -/
+abbrev getBudget (retry : Nat) : Prop := retry < 8
+/-- `if misses++; misses < 3 { continue }` (on the incremented counter) -/
+abbrev getMissesCond (misses : Nat) : Prop := misses < 3
+
 /-- `continue` in `Get`'s loop: `retry++`, leave the loop (miss) when `retry < 8` fails -/
 def Pc.again {K V : Type} (k : K) (n m : Nat) : Pc K V :=
-  if n + 1 < 8 then .gLookup k (n + 1) m else .gDone k none
+  if getBudget (n + 1) then .gLookup k (n + 1) m else .gDone k none
 
 structure State (K V : Type) where
   ent : Nat → Entry K V
@@ -118,7 +123,7 @@ inductive Step [Inhabited K] [DecidableEq K] : State K V → State K V → Prop
   | getLookupHit (s t k n m) (e : Nat) : s.pc t = .gLookup k n m →       -- backend: any object
       Step s (s.setPc t (.gTry e k n m))
   | getLookupMiss (s t k n m) : s.pc t = .gLookup k n m →                -- `misses++; if misses < 3 continue; break`
-      Step s (s.setPc t (if m + 1 < 3 then .again k n (m + 1) else .gDone k none))
+      Step s (s.setPc t (if getMissesCond (m + 1) then .again k n (m + 1) else .gDone k none))
   | getTryOk (s t e k n m) : s.pc t = .gTry e k n m → (s.ent e).wr = none →
       Step s ((s.setEnt e { s.ent e with rd := t :: (s.ent e).rd }).setPc t (.gCheck e k n m))
   | getTryFail (s t e k n m) : s.pc t = .gTry e k n m →                   -- writer holds/wants the lock: `continue`
